@@ -324,7 +324,7 @@ class Verdict:
                "evaluations": self.evaluations, "distinct_nontrivial": len(self.distinct),
                "rule": self.rule, "samples": self.samples[:5], "exhaustive": self.exhaustive}
         cov.update(self.extra)
-        ev = {"property_id": self.pid, "tier": self.tier, "seed": self.seed, "level": "model_checking",
+        ev = {"property_id": self.pid, "tier": self.tier, "seed": self.seed, "level": getattr(self, "level_override", "model_checking"),
               "coverage": cov, "assumptions": self.assumptions, "wall_s": round(wall, 2), "violations": nviol}
         os.makedirs(os.path.join(VERIF, "evidence"), exist_ok=True)
         with open(os.path.join(VERIF, "evidence", self.pid + ".json"), "w") as f:
